@@ -137,6 +137,8 @@ def exec_call(d):
                 out = classify.binary(r, d["values"])
             elif d["fn"] == "reclassify":
                 out = classify.reclassify(r, bins=d["bins"], new_values=list(range(len(d["bins"]))))
+            elif d["fn"] == "natural_breaks" and d.get("num_sample") is not None:
+                out = classify.natural_breaks(r, k=d["k"], num_sample=d["num_sample"])
             else:
                 out = getattr(classify, d["fn"])(r, k=d["k"])
         elif t == "terrain":
@@ -414,7 +416,8 @@ FIELDS = {
     "crosstab": {"agg": ["count", "percentage"], "cat_ids": [None, [1, 3]], "backend": BKS},
     "polygonize": {"dtype": ["int32", "int64", "uint32", "float32", "float64"], "conn": [4, 8]},
     "classify": {"fn": ["quantile", "natural_breaks", "equal_interval", "binary", "reclassify"], "dtype": DTS, "backend": BKS,
-                 "values": [[1, 2], [0.5], [3, -1, 2]], "bins": [[0, 2, 4], [1, 9], [-1, 0, 1, 2, 3]], "k": [2, 3, 5]},
+                 "values": [[1, 2], [0.5], [3, -1, 2]], "bins": [[0, 2, 4], [1, 9], [-1, 0, 1, 2, 3]], "k": [2, 3, 5],
+                 "num_sample": [None, 30, 12, 20]},
     "terrain": {"fn": ["slope", "aspect", "curvature", "hillshade"], "dtype": DTS, "backend": BKS},
     "astar": {"barriers": [None, [0], [0, 1]], "conn": [4, 8], "snap": [False, True], "dtype": DTS},
     "perlin": {"seed": [0, 1, 2, 3], "freq": [[1, 1], [2, 3]], "shape": [[5, 6], [8, 4]], "dtype": ["float64", "float32"], "backend": BKS},
@@ -433,13 +436,24 @@ def _normalise(d):
         fn = d["fn"]
         if fn == "natural_breaks":
             d["backend"] = "numpy"
-        for f, owners in (("values", ("binary",)), ("bins", ("reclassify",)), ("k", ("quantile", "natural_breaks", "equal_interval"))):
+        for f, owners in (("values", ("binary",)), ("bins", ("reclassify",)), ("k", ("quantile", "natural_breaks", "equal_interval")),
+                          ("num_sample", ("natural_breaks",))):
             if fn not in owners:
                 d.pop(f, None)
-    if d["t"] == "spectral" and d["fn"] not in ("evi", "savi"):
-        d["p"] = None
-    if d["t"] == "local" and d["fn"] != "cell_stats":
-        d["func"] = None
+    if d["t"] == "spectral":
+        d["p"] = (d.get("p") if d.get("p") is not None else 1.0) if d["fn"] in ("evi", "savi") else None
+    if d["t"] == "local":
+        d["func"] = (d.get("func") or "sum") if d["fn"] == "cell_stats" else None
+    if d["t"] == "classify":
+        fn = d["fn"]
+        if fn == "binary":
+            d.setdefault("values", [1, 2])
+        if fn == "reclassify":
+            d.setdefault("bins", [0, 2, 4])
+        if fn in ("quantile", "natural_breaks", "equal_interval"):
+            d.setdefault("k", 3)
+        if fn == "natural_breaks":
+            d.setdefault("num_sample", None)
     return d
 
 
@@ -458,8 +472,6 @@ def variant(draw, base):
     fields = sorted(FIELDS[base["t"]]) + ["rid"]
     for f in draw(st.lists(st.sampled_from(fields), min_size=1, max_size=2, unique=True)):
         d[f] = draw(st.integers(0, 2)) if f == "rid" else draw(st.sampled_from(FIELDS[base["t"]][f]))
-    for f, vals in FIELDS[base["t"]].items():
-        d.setdefault(f, vals[0])
     return _normalise(d)
 
 
@@ -493,6 +505,47 @@ def sequences(draw, families, max_calls, max_distinct):
     return {"sub": "seq", "steps": steps}
 
 
+def sweep_cases(families, seed, take):
+    """Designed parameter sweeps: for every function of the catalogue and every parameter that function uses, the same call is made with the
+    parameter running through its values upwards and then downwards (all other parameters fixed) - histories in which only ONE captured
+    parameter changes between neighbouring calls.  `take` = fraction of sweeps run (selected by the seed in the quick tier)."""
+    import random as _r   # deterministic selection from VERIF_SEED only (not inside a property body)
+    rng = _r.Random(seed)
+    owners = {"classify": {"values": ["binary"], "bins": ["reclassify"], "k": ["quantile", "natural_breaks", "equal_interval"], "num_sample": ["natural_breaks"]},
+              "spectral": {"p": ["evi", "savi"]}, "local": {"func": ["cell_stats"]}}
+    out = []
+    for t in families:
+        fields = FIELDS[t]
+        fns = fields.get("fn", [None])
+        for fn in fns:
+            base = {"t": t, "rid": 1}
+            for f, vals in fields.items():
+                base[f] = vals[0]
+            if fn is not None:
+                base["fn"] = fn
+            if "dtype" in fields:
+                base["dtype"] = "float64" if "float64" in fields["dtype"] else fields["dtype"][0]
+            if "backend" in fields:
+                base["backend"] = "numpy"
+            for f, vals in fields.items():
+                if f in ("fn",) or len(vals) < 2:
+                    continue
+                own = owners.get(t, {}).get(f)
+                if own and fn not in own:
+                    continue
+                seq = [_normalise(dict(base, **{f: v})) for v in list(vals) + list(reversed(vals))[1:]]
+                out.append({"sub": "seq", "steps": [{"op": "call", "d": d, "repeat": False} for d in seq], "designed": "sweep:%s.%s.%s" % (t, fn, f)})
+    if take >= 1.0:
+        return out
+    # quick tier: always sweep the parameters that are captured/frozen/defaulted somewhere (limits, sample sizes, counts, seeds, shapes, lists
+    # with mutable defaults); sample the remaining sweeps by the seed
+    prio = ("num_sample", "md", "k", "passes", "seed", "shape", "excludes", "stats", "barriers", "tv")
+    first = [c for c in out if c["designed"].rsplit(".", 1)[1] in prio]
+    rest = [c for c in out if c not in first]
+    rng.shuffle(rest)
+    return first + rest[:int(len(rest) * take)]
+
+
 def alt_prox_cases(fn):
     """Designed histories for the closure-compiled proximity kernels: for every (metric, target_values) the same function is called on a small
     raster with a limit beyond its diagonal, then on a larger raster without limit, with a small limit, and again without."""
@@ -519,6 +572,10 @@ def shards(tier):
     mixed = [f for fams in FAMILIES for f in fams]
     for rep in range(2 if tier == "quick" else 3):
         out.append(("seq_mixed#%d" % rep, lambda ctx: drive_hypothesis(ctx, body_seq, sequences(mixed, calls, distinct), nseq, shrink=(tier == "thorough"))))
+    for fi, fams in enumerate(FAMILIES):
+        take = 0.1 if tier == "quick" else 1.0
+        out.append(("sweep_%s" % "+".join(fams)[:24], lambda ctx, fams=fams, take=take: drive_enum(
+            ctx, body_seq, sweep_cases(fams, ctx.seed, take), space="designed one-parameter sweeps (%s), fraction %.2f" % ("+".join(fams), take))))
     for fn in ("proximity", "allocation", "direction"):
         out.append(("alt_prox_%s" % fn, lambda ctx, fn=fn: drive_enum(ctx, body_seq, alt_prox_cases(fn), space="designed proximity alternation histories (%s)" % fn, size=4)))
     out.append(("threads#0", lambda ctx: drive_enum(ctx, body_threads, THREAD_CASES[0::2], space="prange kernels x thread counts", size=3)))
